@@ -64,4 +64,70 @@ let spec_case (line : string) : string =
       else "text is neither the full chain nor a marked truncation that keeps the old text: got " ^ n
   | _ -> failwith "bad spec line"
 
-let engines = [ "errmsg", run_case; "errmsg-spec", spec_case ]
+(* ---- statuses (StatusModel) ------------------------------------------------------------ *)
+open StatusModel
+
+let pinned = (Sys.getenv_opt "VERIF_C16_PINNED" = Some "1")
+let hexu (z : BinNums.coq_Z) = hex_of_z z
+let flag b = if b then "1" else "0"
+let after_colon s = String.sub s 2 (String.length s - 2)
+
+let status_case (line : string) : string =
+  match line.[0] with
+  | 'S' ->
+      let s = z_of_hex (after_colon line) in
+      let (k, m1) = addrxlat2kdump (s32 s) in
+      let (a, m2) = kdump2addrxlat (u32 s) in
+      Printf.sprintf "%s %s %s %s" (hexu (u32 k)) (flag m1) (hex_of_z a) (flag m2)
+  | 'O' ->
+      let rs = Stdlib.List.map (fun t -> let s = z_of_hex t in (s, s <> BinNums.Z0))
+                 (split_on ',' (after_colon line)) in
+      let (st, m) = probe_loop rs in
+      Printf.sprintf "%s %s" (hexu st) (flag m)
+  | 'V' ->
+      let n = int_of_string (after_colon line) in
+      (match raw_post_hook (not pinned) (Stdlib.List.init n (fun _ -> BinNums.Z0)) with
+       | St s -> Printf.sprintf "%s %s" (hexu s) (flag (s <> BinNums.Z0))
+       | Undef -> "any (status variable never assigned)")
+  | 'P' ->
+      if after_colon line = "-1" then
+        (let (st, m) = init_cpu_blob_attr (not pinned) BinNums.Z0 true true BinNums.Z0 in
+         Printf.sprintf "%s %s" (hexu st) (flag m))
+      else
+        (* some allocation fails: every allocation on this path is mandatory *)
+        (let (st, m) = init_cpu_blob_attr (not pinned) BinNums.Z0 true false BinNums.Z0 in
+         if pinned then "any" else Printf.sprintf "%s %s" (hexu st) (flag m))
+  | _ -> failwith "bad status case"
+
+(* "<case> <fields of the implementation's answer>" *)
+let statusspec_case (line : string) : string =
+  match words line with
+  | c :: f ->
+      let pair st m = (z_of_hex st, m = "1") in
+      let judge what r =
+        if status_msg_ok r then "ok"
+        else Printf.sprintf "%s returns status %s with%s error message: not (documented status, message iff failure)"
+               what (hex_of_z (fst r)) (if snd r then " an" else "out an") in
+      (match c.[0], f with
+       | 'S', [k; m1; a; m2] ->
+           let s = z_of_hex (after_colon c) in
+           let in_k = int_of_z s >= -9 && int_of_z s <= 6 in
+           let in_a = int_of_z s >= 0 && int_of_z s <= 9 in
+           let r1 = if in_k then judge "addrxlat2kdump" (pair k m1) else "ok" in
+           if r1 <> "ok" then r1
+           else if in_a then
+             (let az = z_of_hex a in
+              if addrxlat_doc az && ((az <> BinNums.Z0) = (m2 = "1")) then "ok"
+              else "kdump2addrxlat returns " ^ a ^ " msg=" ^ m2)
+           else "ok"
+       | 'O', st :: m :: _ -> judge "open (probe loop)" (pair st m)
+       | 'V', st :: m :: _ -> judge "setting linux.vmcoreinfo.raw" (pair st m)
+       | 'P', st :: m :: _ ->
+           if after_colon c <> "-1" && z_of_hex st = BinNums.Z0 then
+             "init_cpu_prstatus reports success although allocation " ^ after_colon c ^ " on its path failed"
+           else judge "init_cpu_prstatus" (pair st m)
+       | _ -> failwith "bad statusspec line")
+  | _ -> failwith "bad statusspec line"
+
+let engines = [ "errmsg", run_case; "errmsg-spec", spec_case;
+                "errmsg-status", status_case; "errmsg-statusspec", statusspec_case ]
